@@ -31,6 +31,7 @@ import (
 	netutil "github.com/samaritan-proxy/samaritan/proc/internal/net"
 	"github.com/samaritan-proxy/samaritan/proc/internal/syscall"
 	"github.com/samaritan-proxy/samaritan/proc/redis/hotkey"
+	"github.com/samaritan-proxy/samaritan/utils/verifpoint"
 )
 
 const (
@@ -596,15 +597,19 @@ func (c *client) Start() {
 		close(c.quit)
 	})
 	<-writeDone
+	verifpoint.HitArg("redis.client.start.before-drain", c)
 	c.drainRequests()
+	verifpoint.HitArg("redis.client.start.after-drain", c)
 	close(c.done)
 }
 
 func (c *client) Send(req *simpleRequest) {
+	verifpoint.HitArg("redis.client.send.enter", c)
 	select {
 	case <-c.quit:
 		req.SetResponse(newError(backendExited))
 	default:
+		verifpoint.HitArg("redis.client.send.before-enqueue", c)
 		c.pendingReqs <- req
 	}
 }
@@ -620,6 +625,7 @@ func (c *client) loopWrite() {
 			return
 		case req = <-c.pendingReqs:
 		}
+		verifpoint.HitArg("redis.client.write.got-req", c)
 
 		switch c.filter.Do(req) {
 		case Continue:
@@ -638,6 +644,7 @@ func (c *client) loopWrite() {
 			}
 		}
 
+		verifpoint.HitArg("redis.client.write.before-processing-enqueue", c)
 		select {
 		case <-c.quit:
 			return
@@ -661,6 +668,7 @@ func (c *client) loopRead() {
 			return
 		}
 
+		verifpoint.HitArg("redis.client.read.before-dequeue", c)
 		req := <-c.processingReqs
 		c.handleResp(req, resp)
 	}
